@@ -213,9 +213,7 @@ Proof.
   unfold s_run in *. cbn [fold_left]. apply IH. apply step_R; assumption.
 Qed.
 
-(* related states finish alike: the continuing reader has the earlier objects in front *)
-Definition prepend (objs : list tree) (p : nat) (r : result) : result :=
-  match r with ROk o q => ROk (objs ++ o) (p + q) | RErr e o => RErr e (objs ++ o) end.
+(* related states finish alike: the continuing reader has the earlier objects in front (prepend: Model.v) *)
 
 Lemma depth_R old p p' : pR old p p' -> depth_of p = depth_of p'.
 Proof. intros [Hs _]. unfold depth_of. rewrite Hs. reflexivity. Qed.
